@@ -55,7 +55,7 @@ func runC17(a *A) {
 	c17R2(a)
 	if r := resolveRolesG(a, "C17-R0", "p"); r != nil {
 		c17R3(a, r)
-		if rc := resolveRolesG(a, "C17-R3", "c"); rc != nil {
+		if rc := resolveRolesG(a, "C17-R3", "r"); rc != nil {
 			c17R3Ctor(a, rc)
 			// R5: the gate sees every packet: nothing is filtered or skipped between the socket and the parser
 			readerForwardsAll(a, "C17-R5", rc)
